@@ -1,7 +1,7 @@
 INIT Init
 NEXT Next
 CONSTANTS
- MaxAdds = 3
+ MaxAdds = 4
 INVARIANT C20_KeysOnce
 INVARIANT C20_UnionOfMembers
 INVARIANT C20_FirstWins
